@@ -5,6 +5,7 @@ import (
 	"encoding/json"
 	"fmt"
 	"maps"
+	"reflect"
 	"slices"
 	"strings"
 
@@ -280,7 +281,38 @@ func (n nodeJSON) ToNode() (ast.Node, error) {
 	}
 }
 
+// nodeJSONKeys are the JSON object keys that nodeJSON decodes into typed fields.
+var nodeJSONKeys = func() []string {
+	var keys []string
+	t := reflect.TypeOf(nodeJSON{})
+	for i := 0; i < t.NumField(); i++ {
+		tag := t.Field(i).Tag.Get("json")
+		if tag == "-" {
+			continue
+		}
+		name, _, _ := strings.Cut(tag, ",")
+		keys = append(keys, name)
+	}
+	return keys
+}()
+
+func hasUnknownNodeKey(keys map[string]json.RawMessage) bool {
+	for k := range keys {
+		if !slices.ContainsFunc(nodeJSONKeys, func(known string) bool { return strings.EqualFold(known, k) }) {
+			return true
+		}
+	}
+	return false
+}
+
 func (n *nodeJSON) UnmarshalJSON(b []byte) error {
+	// Look at the keys before decoding any value: finding an unknown key only after the known fields have been
+	// decoded would decode every sub-expression a second time below, which is exponential in the nesting depth.
+	var keys map[string]json.RawMessage
+	if err := json.Unmarshal(b, &keys); err == nil && hasUnknownNodeKey(keys) {
+		return json.Unmarshal(b, &n.ExtensionCall)
+	}
+
 	decoder := json.NewDecoder(bytes.NewReader(b))
 	decoder.DisallowUnknownFields()
 
